@@ -270,6 +270,14 @@ def main():
     hits = []
     for m in modules:
         hits += vlib.forbidden_scan(m)
+    # thorough tier: the compiled theorems are replayed by the toolchain's independent checker
+    leanchecker_note = "not run (quick tier)"
+    if args.tier == "thorough" and thm_ok:
+        with vlib.Lock("lake"):
+            rc, out, err = vlib.run(["lake", "env", "leanchecker"] + modules, cwd=vlib.LEAN, timeout=3600)
+        leanchecker_note = "leanchecker %s: rc=%d" % (" ".join(modules), rc)
+        if rc != 0:
+            bad.append("leanchecker rejects %s: %s" % (" ".join(modules), (out + err).decode(errors="replace")[-300:]))
     proof_problems = []
     if not drv_ok:
         proof_problems.append("lake build amqdrv failed")
@@ -322,6 +330,7 @@ def main():
         "obligations": len(thms),
         "discharged": max(discharged, 0),
         "theorems": thms,
+        "leanchecker": leanchecker_note,
         "checker_cmd": "cd /verif/lean && lake build amqdrv %s && lake env lean <generated #print axioms file> (allowed: propext, Classical.choice, Quot.sound) && forbidden-token scan" % " ".join(modules),
         "trusted_base": vlib.TRUSTED_BASE + getattr(mod, "TRUSTED_EXTRA", []),
         "evaluations": rep.evals,
